@@ -47,13 +47,23 @@ def run(prog, rep):
                 if ret.get("e") is not None and guards.eval_const(ret["e"], facts) == 0:
                     if guards.lookup(facts, guards.key(c)) != 0:
                         bad = (ret, flow.witness_lines(cur[0], cur[1]))
+            # the remainder exists only for a relative sleep: with TIMER_ABSTIME clock_nanosleep leaves *remain untouched, and the
+            # retry's `request = remainder` turns the deadline into whatever the variable held (the zeros of its initialisation: the
+            # retry returns at once and the sleep ends early with 0)
+            if name == "clock_nanosleep" and len(c["args"]) >= 4:
+                fl_ = cv(c["args"][1])
+                if fl_ is None:
+                    fl_ = guards.eval_const(c["args"][1], guards.EMPTY)
+                rep.ob("C19.3", fn, site + ":relative", fl_ == 0, "clock_nanosleep is called in relative mode (flags 0), the mode in which it fills in the remaining time" if fl_ == 0 else
+                       "clock_nanosleep is called with flags %s: in absolute mode it never writes the remaining time, so the value copied into the request after an interruption "
+                       "is not a deadline and the re-issued sleep returns early" % ("TIMER_ABSTIME" if fl_ == 1 else show(c["args"][1])), c)
             rep.ob("C19.3", fn, site + ":zero", bad is None,
                    "0 is returned only on paths where %s returned 0" % name if bad is None else
                    "returns 0 on a path where %s is not known to have returned 0" % name,
                    bad[0] if bad else c, bad[1] if bad else None)
     # both sleep primitives exist in the source; the analysed configuration selects one
     rep.floor("C19.1", 12, "sem_open x2, sem_wait, shm_open x2, connect, accept, recv, recvfrom, send, sendto, poll")
-    rep.floor("C19.3", 1)
+    rep.floor("C19.3", 3)
     cu = prog.unit("psysclose-unix.c")
     fn = cu.fn("p_sys_close")
     closes = [c for (b, i, c) in fn.calls() if c.get("callee") == "close"]
@@ -89,6 +99,8 @@ THOROUGH_CONFIGS = [dict(name="nanosleep-only", extra_flags={"puthread.c": ["-UP
 RENAME_LOCALS = ['src/psocket.c', 'src/puthread.c', 'src/psemaphore-posix.c', 'src/pshm-posix.c']
 
 SELFTEST = [
+    dict(id="sleep-absolute-mode-keeps-remainder-copy", file="src/puthread.c", expect="C19.3",
+         old="clock_nanosleep (CLOCK_MONOTONIC,\n\t\t\t\t\t\t\t   0,", new="clock_nanosleep (CLOCK_MONOTONIC,\n\t\t\t\t\t\t\t   TIMER_ABSTIME,"),
     dict(id="semwait-while-to-if", file="src/psemaphore-posix.c", expect="C19.1",
          old="\twhile ((res = sem_wait (sem->sem_hdl)) == -1 && p_error_get_last_system () == EINTR)\n\t\t;",
          new="\tres = sem_wait (sem->sem_hdl);"),
